@@ -1397,6 +1397,10 @@ private:
     if (!log.is_open())
       return; // No log file yet
 
+    // Offset just past the last record that was read completely. Whatever follows
+    // it is a torn tail left by a crash (or an unreadable length prefix).
+    std::streamoff goodEnd = 0;
+
     while (log.peek() != EOF)
     {
       uint32_t totalLen = 0;
@@ -1411,6 +1415,7 @@ private:
       {
         break; // Incomplete entry
       }
+      goodEnd = static_cast<std::streamoff>(log.tellg());
 
       if (!validateLogEntry(buffer, totalLen))
       {
@@ -1546,6 +1551,20 @@ private:
       {
         _kv.erase(key);
         _expiry.erase(key);
+      }
+    }
+
+    // Cut a torn tail off BEFORE the log is reopened for appending: otherwise the
+    // next record is written after the partial one, and at the following load the
+    // partial record's length prefix swallows it (acknowledged writes lost, value
+    // bytes re-interpreted as records).
+    log.close();
+    {
+      std::error_code ec;
+      const auto fileSize = std::filesystem::file_size(_logPath, ec);
+      if (!ec && static_cast<std::uintmax_t>(goodEnd) < fileSize)
+      {
+        std::filesystem::resize_file(_logPath, static_cast<std::uintmax_t>(goodEnd), ec);
       }
     }
   }
